@@ -279,6 +279,10 @@ func TestC18(t *testing.T) {
 			} else {
 				req, _ = http.NewRequest(method, "http://"+c18Hosts[host0]+"/start", nil)
 			}
+			if rng.Intn(5) == 0 || (i == 4 && call == 0) {
+				// the caller's own credentials of another scheme, Kerberos as the fall-back: the token takes their place
+				req.Header.Set("Authorization", "Bearer "+X(rng.Bytes(12)))
+			}
 			var resp *http.Response
 			var derr error
 			done := make(chan struct{})
